@@ -31,9 +31,10 @@ def main(path):
     cands = d.get("candidate") or d.get("witness")
     runs = []
     if d.get("property") == "C05":
-        for tag, cfg, ov in (("baseline", d["base_config"], cands["overrides_a"]),
-                             ("variant", d["variant_config"], cands["overrides_b"])):
-            rp = common.Replayer(src, dict(cfg, allow_warnings=True))
+        for tag, cfg, ov, s in (("baseline", d["base_config"], cands["overrides_a"], src),
+                                ("variant", d["variant_config"], cands["overrides_b"],
+                                 d.get("variant_source", src))):
+            rp = common.Replayer(s, dict(cfg, allow_warnings=True))
             runs.append((tag + " honest", rp.run(cands["func"], cands["args"])))
             runs.append((tag + " forced hints", rp.run(cands["func"], cands["args"], overrides=ov)))
             rp.close()
